@@ -14,6 +14,9 @@ type Parser struct {
 	inFunction      bool
 	inLoop          bool
 	depth           int
+	// a lexical error met where it could not be returned (atStatementEnd);
+	// the next parsing step reports it
+	pendingErr error
 }
 
 // how deeply expressions and statements may nest in the program text. The
@@ -110,6 +113,9 @@ func (p *Parser) error(pos int, msg string) SyntaxError {
 }
 
 func (p *Parser) advance() (Token, error) {
+	if p.pendingErr != nil {
+		return Token{}, p.pendingErr
+	}
 	t, err := p.lexer.Next()
 	if err != nil {
 		return t, err
@@ -189,6 +195,9 @@ func (p *Parser) statement() (Statement, error) {
 	defer func() { p.depth-- }()
 	if p.depth > parseDepthLimit {
 		return nil, p.error(p.current.Pos, "program nested too deeply")
+	}
+	if p.pendingErr != nil {
+		return nil, p.pendingErr
 	}
 
 	p.didEndStatement = false
@@ -446,7 +455,9 @@ func (p *Parser) atStatementEnd() bool {
 	case RCurly:
 		return true
 	case SemiColon:
-		p.consume(SemiColon)
+		if err := p.consume(SemiColon); err != nil {
+			p.pendingErr = err
+		}
 		return true
 	default:
 		return false
@@ -462,6 +473,9 @@ func (p *Parser) expressionWithPrec(prec Precedence) (Expr, error) {
 	defer func() { p.depth-- }()
 	if p.depth > parseDepthLimit {
 		return nil, p.error(p.current.Pos, "program nested too deeply")
+	}
+	if p.pendingErr != nil {
+		return nil, p.pendingErr
 	}
 
 	prefixRule := p.rule(p.current.Tag)
